@@ -1,12 +1,13 @@
 \* C35 leg A quick: 2 local blocks (each level-1 / empty / compacted; absent / partial / complete in the bucket),
 \* upload-compacted and out-of-order on/off, <= 2 crashes and <= 1 failed bucket call anywhere;
-\* generated cases: 1..2 blocks, pre-state absent/complete, <= 1 crash point
+\* generated cases: 1..2 blocks (level-1 or compacted; empty blocks come from the random cases), pre-state absent/complete, <= 1 crash point
 SPECIFICATION Spec
 CONSTANTS N = 2
           MaxCrashes = 2
           MaxFails = 1
           CaseN = 2
           CaseCrashes = 1
+          CaseKinds = {"L1", "L2"}
           CasePre = {"absent", "complete"}
 INVARIANTS C35_RecordedWereSeenComplete C35_SuccessfulSyncShippedAll C28_Holds
 PROPERTIES EventuallyShipped
